@@ -111,6 +111,11 @@ def layout_clause(strat, recs, decode, accept_expected=True):
     return _check_with(L, name, out, recs, decode)
 
 
+def corrected(raw):
+    """what the C02 stub parser returns as corrected barcode: differs from the raw bases in the first position"""
+    return ('N' + raw[1:]) if raw else raw
+
+
 def _check_with(L, name, out, recs, decode):
     for m, tr in enumerate(out):
         t = tr.tags
@@ -118,7 +123,7 @@ def _check_with(L, name, out, recs, decode):
             return 'MX'
         if L['bc'] and t.get('bc') != cat(recs, L['bc']):
             return 'bc'
-        if L['bc'] and t.get('BC') != cat(recs, L['bc']):
+        if L['bc'] and t.get('BC') != corrected(cat(recs, L['bc'])):
             return 'BC'
         if L['umi']:
             if t.get('RX') != cat(recs, L['umi']):
